@@ -1,7 +1,7 @@
 use serde::{Deserialize, Serialize};
 
 use crate::{
-    Document, FatToken, Span,
+    Document, FatToken, Span, TokenKind,
     linting::{Lint, LintKind, Suggestion},
 };
 
@@ -48,6 +48,12 @@ impl LintContext {
                     // it is an index into the token list and moves whenever text is added earlier.
                     if let Some(quote) = fat.kind.as_mut_quote() {
                         quote.twin_loc = None;
+                    }
+
+                    // Neither is what the dictionary knows about a word: it changes when the user
+                    // adds a neighbouring word to their dictionary, while the text stays the same.
+                    if let TokenKind::Word(metadata) = &mut fat.kind {
+                        *metadata = None;
                     }
 
                     fat
